@@ -740,6 +740,9 @@ func (x *c04) regionRule(rule string, names []string) {
 			// be able to wrap (size - 1 for size == 0 is 2^64-1).
 			if bad == "" {
 				for _, tv := range lf.tripValues(g) {
+					if cv := narrowingConv(tv, 0); cv != nil {
+						bad = "the page count passes through the narrowing conversion `" + cv.String() + "`: a region of 2^" + fmt.Sprint(intWidth(cv.Type())) + " pages or more is mapped only in part"
+					}
 					if sub := unguardedSub(g, tv, 0); sub != nil {
 						bad = "the page count is computed with the unsigned subtraction `" + sub.String() + "` that is not guarded against wrap-around: a zero (or too small) size maps an enormous number of pages"
 					}
@@ -841,4 +844,70 @@ func unguardedSub(g *IG, v ssa.Value, depth int) *ssa.BinOp {
 		return unguardedSub(g, x.Y, depth+1)
 	}
 	return nil
+}
+
+// narrowingConv finds, in the expression tree of v (through arithmetic and
+// conversions, not through merges or calls), a conversion of an integer to a
+// narrower integer type. The polynomial forms treat integer conversions as the
+// identity; where a count is concerned a narrowing one is not.
+func narrowingConv(v ssa.Value, depth int) *ssa.Convert {
+	if depth > 8 {
+		return nil
+	}
+	switch x := v.(type) {
+	case *ssa.Convert:
+		if isIntegral(x.Type()) && isIntegral(x.X.Type()) && intWidth(x.Type()) < intWidth(x.X.Type()) {
+			// (a value that is known to fit: a constant, or masked / shifted into range)
+			if !fitsWidth(x.X, intWidth(x.Type())) {
+				return x
+			}
+		}
+		return narrowingConv(x.X, depth+1)
+	case *ssa.ChangeType:
+		return narrowingConv(x.X, depth+1)
+	case *ssa.BinOp:
+		if r := narrowingConv(x.X, depth+1); r != nil {
+			return r
+		}
+		return narrowingConv(x.Y, depth+1)
+	}
+	return nil
+}
+
+// fitsWidth: v is certainly below 2^w (a constant, x & mask, x >> k of a wide
+// enough shift, a conversion from a type that narrow).
+func fitsWidth(v ssa.Value, w int) bool {
+	if w >= 64 {
+		return true
+	}
+	limit := uint64(1) << uint(w)
+	if k, ok := constUint64(v); ok {
+		return k < limit
+	}
+	switch x := v.(type) {
+	case *ssa.Convert:
+		if isIntegral(x.X.Type()) && intWidth(x.X.Type()) <= w && isUnsignedInt(x.X.Type()) {
+			return true
+		}
+		return fitsWidth(x.X, w)
+	case *ssa.BinOp:
+		switch x.Op {
+		case token.AND:
+			if k, ok := constUint64(x.Y); ok && k < limit {
+				return true
+			}
+			if k, ok := constUint64(x.X); ok && k < limit {
+				return true
+			}
+		case token.SHR:
+			if k, ok := constUint64(x.Y); ok && intWidth(x.X.Type())-int(k) <= w {
+				return true
+			}
+		case token.REM:
+			if k, ok := constUint64(x.Y); ok && k <= limit {
+				return true
+			}
+		}
+	}
+	return false
 }
